@@ -146,7 +146,7 @@ class Reader:
                 if not self.ignore_warnings:  # avoid the checks for streaming data
                     _logger.warning(
                         f"{sglx_file} : meta data and compressed chunks dont checkout\n"
-                        f"File duration: expected {self.meta['fileTimeSecs']},"
+                        f"File duration: expected {self.meta.get('fileTimeSecs')},"
                         f" actual {ftsec}\n"
                         f"Will attempt to fudge the meta-data information."
                     )
@@ -162,9 +162,9 @@ class Reader:
                     if not self.ignore_warnings:
                         _logger.warning(
                             f"{sglx_file} : meta data and filesize do not checkout\n"
-                            f"File size: expected {self.meta['fileSizeBytes']},"
+                            f"File size: expected {self.meta.get('fileSizeBytes')},"
                             f" actual {self.file_bin.stat().st_size}\n"
-                            f"File duration: expected {self.meta['fileTimeSecs']},"
+                            f"File duration: expected {self.meta.get('fileTimeSecs')},"
                             f" actual {ftsec}\n"
                             f"Will attempt to fudge the meta-data information."
                         )
